@@ -196,6 +196,18 @@ impl Recv {
             use http::header;
 
             if let Some(content_length) = frame.fields().get(header::CONTENT_LENGTH) {
+                // Every content-length field has to agree with the body, so
+                // they all have to agree with each other.
+                if frame
+                    .fields()
+                    .get_all(header::CONTENT_LENGTH)
+                    .iter()
+                    .any(|other| other != content_length)
+                {
+                    proto_err!(stream: "conflicting content-length fields; stream={:?}", stream.id);
+                    return Err(Error::library_reset(stream.id, Reason::PROTOCOL_ERROR).into());
+                }
+
                 let content_length = match frame::parse_u64(content_length.as_bytes()) {
                     Ok(v) => v,
                     Err(_) => {
